@@ -329,3 +329,88 @@ Section AesGuard.
   Definition g_docs (patched : bool) (ds : list doc) : bool :=
     fold_left (fun p d => snd (g_extract p d)) ds patched.
 End AesGuard.
+
+(* ------------------------------------------------------------------ Part 4: lazily filled registry *)
+
+(* serialization._get_type_registry:  if REG: return REG ; for name in ...: REG[name] = cls ; return REG
+   (in place), or with the repair: build a local dict, publish it with ONE REG.update(local).
+   The registry is the set of names filled so far; a thread's view is what the shared dict holds
+   at the moment the function returns it (the first look-up may follow immediately). *)
+Inductive reg_instr := RCheck | RFill (i : nat) | RPublish | RReturn.
+
+Record reg_thread := mkReg { rpc : list reg_instr; rview : option (list nat) }.
+Record reg_state := mkRegSt { registry : list nat; rthreads : list reg_thread }.
+
+Definition reg_inplace (n : nat) : list reg_instr := RCheck :: map RFill (seq 0 n) ++ [RReturn].
+Definition reg_publish (n : nat) : list reg_instr := [RCheck; RPublish; RReturn].
+
+Definition reg_exec (n : nat) (st : reg_state) (t : nat) (th : reg_thread) (i : reg_instr) (rest : list reg_instr) : reg_state :=
+  match i with
+  | RCheck =>
+      mkRegSt (registry st)
+              (update (rthreads st) t (mkReg (match registry st with [] => rest | _ => [RReturn] end) (rview th)))
+  | RFill j => mkRegSt (j :: registry st) (update (rthreads st) t (mkReg rest (rview th)))
+  | RPublish => mkRegSt (seq 0 n ++ registry st) (update (rthreads st) t (mkReg rest (rview th)))
+  | RReturn => mkRegSt (registry st) (update (rthreads st) t (mkReg rest (Some (registry st))))
+  end.
+
+Definition reg_step (n : nat) (st : reg_state) (t : nat) : reg_state :=
+  match nth_error (rthreads st) t with
+  | None => st
+  | Some th => match rpc th with [] => st | i :: rest => reg_exec n st t th i rest end
+  end.
+
+Definition reg_run (n : nat) (st : reg_state) (sched : list nat) : reg_state := fold_left (reg_step n) sched st.
+Definition reg_init (k : nat) (prog : list reg_instr) : reg_state := mkRegSt [] (repeat (mkReg prog None) k).
+
+(* a view is complete when every one of the n names can be looked up *)
+Definition reg_full (n : nat) (v : list nat) : bool := forallb (fun i => existsb (Nat.eqb i) v) (seq 0 n).
+
+(* ------------------------------------------------------------------ Part 5: the inventory of shared state *)
+
+(* Every module-level / class-level object of the library that extractor calls share is one cell.
+   The inventory (regenerated from the ast into Gen/C15Inventory.v) classifies each cell; what an
+   extraction may do to a cell is determined by its class:
+     KConst     never written after import (no mutating statement anywhere in the library)
+     KMemo cap  memo table of a pure function (lru_cache sites, _ROUND_KEY_CACHE, _FONT_CACHE)
+     KLazy      filled idempotently on first use (_TYPE_REGISTRY)
+     KProtocol  patch/restore protocol state, at rest between extractions (C15_patch_restored)
+     KConfig    rebound only by a public configuration call, never by an extraction
+     KRaw       anything else: extractions may leave arbitrary values in it *)
+Inductive kind := KConst | KMemo (cap : nat) | KLazy | KProtocol | KConfig | KRaw.
+
+Definition classified (k : kind) : bool := match k with KRaw => false | _ => true end.
+
+Record cell := mkCell { ck : kind; ccache : list (nat * nat); cfilled : bool; craw : option nat }.
+Definition new_cell (k : kind) : cell := mkCell k [] false None.
+
+Inductive op := Use (i key : nat) | Poke (i v : nat).
+
+Section Store.
+  Variable content : nat -> nat -> nat.    (* oracle: what cell i yields for `key` in a fresh process *)
+
+  Definition use_cell (i key : nat) (c : cell) : nat * cell :=
+    match ck c with
+    | KMemo cap =>
+        let r := memo_call Nat.eqb (content i) cap (ccache c) key in
+        (fst r, mkCell (ck c) (snd r) (cfilled c) (craw c))
+    | KLazy => (content i key, mkCell (ck c) (ccache c) true (craw c))
+    | KRaw => (match craw c with Some v => v | None => content i key end, c)
+    | _ => (content i key, c)
+    end.
+
+  (* a write an extraction leaves behind: possible on an unclassified cell only *)
+  Definition poke_cell (v : nat) (c : cell) : cell :=
+    match ck c with KRaw => mkCell (ck c) (ccache c) (cfilled c) (Some v) | _ => c end.
+
+  Definition apply_op (st : list cell) (o : op) : list cell :=
+    match o with
+    | Use i key => match nth_error st i with Some c => update st i (snd (use_cell i key c)) | None => st end
+    | Poke i v => match nth_error st i with Some c => update st i (poke_cell v c) | None => st end
+    end.
+
+  Definition store_run (st : list cell) (h : list op) : list cell := fold_left apply_op h st.
+
+  Definition read (st : list cell) (i key : nat) : option nat :=
+    match nth_error st i with Some c => Some (fst (use_cell i key c)) | None => None end.
+End Store.
